@@ -11,6 +11,7 @@ import (
 	"os"
 	"path/filepath"
 	"runtime"
+	"sort"
 	"strings"
 	"sync"
 	"time"
@@ -133,12 +134,28 @@ func main() {
 	}
 
 	// every third worker process uses an RSA issuing CA (CRLs signed sha256WithRSA), the others ECDSA
+	// the issuing CA's name: default (plain CN) on worker 0 and in unsharded runs, one of the name
+	// shapes (multi-valued RDN, e-mail, domainComponent, repeated OU, CN first, private attribute
+	// type, non-ASCII, long, special characters ...) on the other workers
 	var w *world.World
-	if shardIndex()%3 == 1 {
-		w = world.NewWithKeys("C01", nil, pki.RSAKey(0))
-	} else {
-		w = world.New("C01")
+	var intName []byte
+	issuerShape := "default"
+	if si := shardIndex(); si > 0 {
+		shapes := gen.NameShapes()
+		var keys []string
+		for k := range shapes {
+			keys = append(keys, k)
+		}
+		sort.Strings(keys)
+		issuerShape = keys[(si-1)%len(keys)]
+		intName = shapes[issuerShape]
 	}
+	if shardIndex()%3 == 1 {
+		w = world.NewNamed("C01", nil, pki.RSAKey(0), intName)
+	} else {
+		w = world.NewNamed("C01", nil, nil, intName)
+	}
+	run.Distinct("issuer_name_shapes", issuerShape)
 	defer w.Close()
 	w.CRL.Fragment.Store(shardIndex()%2 == 1) // odd workers: CRL bodies arrive in two chunks
 	other := world.New("C01-other")           // unrelated PKI for the second CRL
@@ -544,6 +561,7 @@ func siblingLocations(run *report.Run, w *world.World, scratch, intPEM string) {
 		"trailing-slash":    {"/crls/current", "/crls/current/"},
 		"doubled-slash":     {"/pki/ca.crl", "/pki//ca.crl"},
 		"query-vs-none":     {"/q.crl", "/q.crl?v=2"},
+		"port-differs":      {"/ca.crl", "/ca.crl"}, // second URL on another origin: same host and path, other port
 	}
 	n := 0
 	for name, pr := range pairs {
@@ -554,14 +572,19 @@ func siblingLocations(run *report.Run, w *world.World, scratch, intPEM string) {
 				e2 := gen.Entries(rng, gen.Opts{N: 6, SerialWidth: 9})
 				pfx := fmt.Sprintf("/sib%d", n)
 				u1, u2 := w.CRL.URL(pfx+pr[0]), w.CRL.URL(pfx+pr[1])
-				set := func(p string, body []byte) {
-					w.CRL.Set(pfx+p, origin.Good(body))
+				set := func(o *origin.Origin, p string, body []byte) {
+					o.Set(pfx+p, origin.Good(body))
 					if !strings.Contains(p, "?") {
-						w.CRL.Set(pfx+p+"?", origin.Good(body))
+						o.Set(pfx+p+"?", origin.Good(body))
 					}
 				}
-				set(pr[0], gen.SpecFor(w.Int, e1).Build(w.Int.Key).DER)
-				set(pr[1], gen.SpecFor(w.Int, e2).Build(w.Int.Key).DER)
+				o2 := w.CRL
+				if name == "port-differs" {
+					o2 = w.OCSP // the world's second loopback origin listens on another port
+					u2 = o2.URL(pfx + pr[1])
+				}
+				set(w.CRL, pr[0], gen.SpecFor(w.Int, e1).Build(w.Int.Key).DER)
+				set(o2, pr[1], gen.SpecFor(w.Int, e2).Build(w.Int.Key).DER)
 				wd := filepath.Join(scratch, fmt.Sprintf("wd-sib%d", n))
 				_ = os.MkdirAll(wd, 0755)
 				cfg := sut.CRLCfg(wd, backend, "verify", "fetch_actively", false, "")
